@@ -1331,15 +1331,86 @@ def is_ident_guard(S, cond, file):
     return None
 
 
+def char_class(S, e, var, file, depth=0):
+    """the set of character classes for which a boolean expression over the character variable `var` is true: subsets of
+    {"alpha", "digit", "_", "$", <other literal chars>}; None when the expression is not understood (or can be true for anything else)"""
+    while isinstance(e, dict) and e.get("k") in ("paren", "block") and (e.get("k") == "paren" or (len(e.get("stmts", [])) == 1 and e["stmts"][0].get("k") == "expr")):
+        e = e["expr"] if e.get("k") == "paren" else e["stmts"][0]["e"]
+    if not isinstance(e, dict) or depth > 4:
+        return None
+    k = e.get("k")
+    if k == "binary" and e["op"] == "||":
+        l, r = char_class(S, e["l"], var, file, depth), char_class(S, e["r"], var, file, depth)
+        return None if l is None or r is None else l | r
+    if k == "binary" and e["op"] == "==":
+        for a_, b_ in ((e["l"], e["r"]), (e["r"], e["l"])):
+            if expr_text(a_).lstrip("*&") == var and b_.get("k") == "lit" and b_["lit"].get("t") == "char":
+                return {str(b_["lit"]["v"])}
+        return None
+    if k == "mcall" and expr_text(e["recv"]).lstrip("*&") == var and not e["args"]:
+        return {"is_alphabetic": {"alpha"}, "is_ascii_alphabetic": {"alpha"}, "is_alphanumeric": {"alpha", "digit"}, "is_ascii_alphanumeric": {"alpha", "digit"},
+                "is_ascii_digit": {"digit"}, "is_numeric": {"digit"}}.get(e["method"])
+    if k == "macro" and e.get("name") == "matches" and e.get("pat") is not None and expr_text(e["expr"]).lstrip("*&") == var and not e.get("guard"):
+        pat = e["pat"]
+        cases = pat["cases"] if pat.get("k") == "or" else [pat]
+        if all(c.get("k") == "lit" and c["lit"].get("t") == "char" for c in cases):
+            return {str(c["lit"]["v"]) for c in cases}
+        return None
+    if k == "call" and e["func"].get("k") == "path" and len(e["args"]) == 1 and expr_text(e["args"][0]).lstrip("*&") == var:
+        for g in [y for y in S.fns if y.name == e["func"]["segs"][-1] and y.body is not None and y.file == file]:
+            prm = [p_["pat"].get("name") for p_ in g.sig.get("params", []) if p_.get("pat")]
+            if len(prm) == 1 and len(g.body) == 1 and g.body[0].get("k") == "expr" and not g.body[0].get("semi"):
+                return char_class(S, g.body[0]["e"], prm[0], file, depth + 1)
+    return None
+
+
+def ident_predicate_sets(S, g):
+    """(classes accepted for the first character, classes accepted for the others) of a predicate that accepts identifier-shaped text, in either
+    spelling: `it.next().is_some_and(|c| START) && it.all(|c| PART)`, or let-else on the first character + a loop with early `return false`"""
+    body = g.body or []
+    # (A) one expression
+    if len(body) >= 1 and body[-1].get("k") == "expr" and not body[-1].get("semi"):
+        e = body[-1]["e"]
+        if e.get("k") == "binary" and e["op"] == "&&":
+            l, r = e["l"], e["r"]
+            if l.get("k") == "mcall" and l["method"] == "is_some_and" and l["args"] and l["args"][0].get("k") == "closure" and "next()" in expr_text(l["recv"]) \
+                    and r.get("k") == "mcall" and r["method"] == "all" and r["args"] and r["args"][0].get("k") == "closure":
+                pv = pat_bindings(l["args"][0]["params"][0])[0]
+                qv = pat_bindings(r["args"][0]["params"][0])[0]
+                return char_class(S, l["args"][0]["body"], pv, g.file), char_class(S, r["args"][0]["body"], qv, g.file)
+    # (B) guard clauses
+    def returns_false(node):
+        stmts = node if isinstance(node, list) else (node.get("stmts") if isinstance(node, dict) and node.get("k") == "block" else [{"k": "expr", "e": node}])
+        return any(x.get("k") == "return" and x.get("expr") is not None and expr_text(x["expr"]) == "false" for x in walk_block(stmts or []))
+    first_var = None
+    start = part = None
+    ends_true = bool(body) and body[-1].get("k") == "expr" and not body[-1].get("semi") and expr_text(body[-1]["e"]) == "true"
+    for st in body:
+        if st.get("k") == "let" and st.get("else") is not None and st.get("init") is not None and "next()" in expr_text(st["init"]) and returns_false(st["else"]):
+            bs = pat_bindings(st["pat"])
+            first_var = bs[0] if bs else None
+        elif st.get("k") == "expr" and st["e"].get("k") == "if" and st["e"].get("else") is None and first_var:
+            c = st["e"]["cond"]
+            if c.get("k") == "unary" and c.get("op") == "!" and returns_false(st["e"]["then"]):
+                start = char_class(S, c["expr"], first_var, g.file)
+        elif st.get("k") == "expr" and st["e"].get("k") == "for":
+            lv = pat_bindings(st["e"]["pat"])
+            for inner in st["e"]["body"]:
+                if inner.get("k") == "expr" and inner["e"].get("k") == "if" and inner["e"].get("else") is None and lv:
+                    c = inner["e"]["cond"]
+                    if c.get("k") == "unary" and c.get("op") == "!" and returns_false(inner["e"]["then"]):
+                        part = char_class(S, c["expr"], lv[0], g.file)
+    if ends_true and first_var:
+        return start, part
+    return None, None
+
+
 def ident_guard_fn(S, name, file):
-    """is `name` a function (of that file) that accepts exactly identifier-shaped text: a test on the first character and `.all(..)` over alphanumerics"""
+    """is `name` a function (of that file) that accepts exactly identifier-shaped text: non-empty, first character alphabetic / `_` / `$`, every
+    other character alphanumeric / `_` / `$` (decided on the character classes the predicate accepts, not on how it is written)"""
     for g in [y for y in S.fns if y.name == name and y.body is not None and y.file == file]:
-        txt = " ".join(expr_text(e) for e in walk_block(g.body))
-        has_all = any(e.get("k") == "mcall" and e["method"] == "all" for e in walk_block(g.body))
-        first = any(e.get("k") == "mcall" and e["method"] in ("is_some_and", "map_or", "is_some_and") for e in walk_block(g.body)) or "next()" in txt
-        alnum = re.search(r"is_(ascii_)?alphanumeric\(\)", txt) and re.search(r"is_(ascii_)?alphabetic\(\)", txt)
-        neg = any(e.get("k") == "unary" and e["op"] == "!" for e in walk_block(g.body))
-        if has_all and first and alnum and not neg:
+        start, part = ident_predicate_sets(S, g)
+        if start and part and start <= {"alpha", "_", "$"} and part <= {"alpha", "digit", "_", "$"}:
             return g.qname
     return None
 
@@ -1369,7 +1440,7 @@ def filter_effects(S, rule):
                 continue
             g_pos = g_neg = None
             for c in conds:
-                m = re.match(r"^(not\()?(\w+)\((\w+)\)\)?$", c)
+                m = re.match(r"^(not\()?(\w+)\((\w+)\)\)?$", re.sub(r"^(\w+: )+", "", c))
                 if m and ident_guard_fn(S, m.group(2), fn.file):
                     guard = ident_guard_fn(S, m.group(2), fn.file)
                     if m.group(1):
